@@ -134,7 +134,16 @@ fn real_verify(kind: Kind, prog: &[u8], via_set: bool) -> (Real, String) {
     }
 }
 
+/// a sample of the inputs, re-verified by 8 threads at once at the end of the run
+static PAR_SAMPLE: std::sync::Mutex<Vec<Vec<u8>>> = std::sync::Mutex::new(Vec::new());
+
 fn check(rep: &mut Report, prog: &[u8], origin: &str, rng: &mut Rng) {
+    if prog.len() <= 2048 && rep.get("evaluations") % 13 == 0 {
+        let mut s = PAR_SAMPLE.lock().unwrap();
+        if s.len() < 8000 {
+            s.push(prog.to_vec());
+        }
+    }
     let want = ref_verify(prog);
     let kind = crate::engines::KINDS[rng.below(4) as usize];
     let via_set = rng.chance(1, 2);
@@ -526,5 +535,11 @@ pub fn run(a: &Args, rep: &mut Report) {
             check(rep, &p, "random-bytes", &mut rng);
             k += 1;
         }
+    }
+    // the verifier called from 8 threads at once, each on its own program: same verdicts as alone
+    if !cfg!(miri) {
+        let progs = std::mem::take(&mut *PAR_SAMPLE.lock().unwrap());
+        let (execs, bad) = crate::mon_par::par_same(&progs, |p| real_verify(Kind::Raw, p, p.len() % 16 == 0).0, if q { 2 } else { 6 });
+        crate::mon_par::report_par(rep, "C06", "verify", execs, bad, |i| json!({"prog": hex(&progs[i])}));
     }
 }
